@@ -65,6 +65,32 @@ func genCases(g *Gen, n int) []*Case {
 	return cases
 }
 
+// multiCases: trees whose root region is multi-cause heavy (nested multi-cause nodes,
+// branches that are wrapped chains, multi-cause nodes under wrappers).
+func multiCases(g *Gen, n int) []*Case {
+	var cases []*Case
+	for i := 0; i < n; i++ {
+		depth := 2 + g.rng.Intn(g.maxDepth-1)
+		nk := 1 + g.rng.Intn(3)
+		kids := make([]*R, nk)
+		for j := range kids {
+			if g.rng.Intn(3) == 0 {
+				kids[j] = g.MultiOp(g.rng.Pick(multiOps), []*R{g.Tree(depth - 2), g.Tree(depth - 2)})
+			} else {
+				kids[j] = g.Tree(depth - 1)
+			}
+		}
+		rec := g.MultiOp(g.rng.Pick(multiOps), kids)
+		for w := g.rng.Intn(3); w > 0; w-- {
+			rec = g.WrapOp(g.rng.Pick(wrapOps), rec, depth)
+		}
+		refs := sentinelRefs(g)
+		refs = append(refs, g.Clone(rec), g.Perturb(rec), g.Clone(kids[0]), g.Tree(2))
+		cases = append(cases, buildCase(fmt.Sprintf("u%d", i), rec, refs, []int{0, 1, 2, 3, 4, 6, 9}))
+	}
+	return cases
+}
+
 // pairCases: every ordered pair (outer wrapper kind, inner kind) over canonical leaves.
 func pairCases(g *Gen) []*Case {
 	var cases []*Case
@@ -114,9 +140,12 @@ func runProperty(res *Result, prop, tier string, seed uint64, driver, replay str
 	}
 	var cases []*Case
 	switch prop {
-	case "C01", "C02", "C08", "C10", "C13":
+	case "C01", "C02", "C08", "C10":
 		cases = append(cases, pairCases(g)...)
 		cases = append(cases, genCases(g, n)...)
+	case "C13":
+		cases = append(cases, pairCases(g)...)
+		cases = append(cases, multiCases(g, n)...)
 	default:
 		fmt.Fprintln(os.Stderr, "unknown property", prop)
 		os.Exit(2)
